@@ -195,7 +195,7 @@ theorem refetchStep_some {g : G} {acc : Option (List Tr × List Nat)} {tr : Tr} 
         split at h
         · rename_i hk
           simp only [Option.some.injEq, Prod.mk.injEq] at h
-          exact ⟨out0, ids0, _, rfl, h.1.symm, rfl, rfl, rfl, fun _ => ⟨e, he, hk.1, hk.2⟩⟩
+          refine ⟨out0, ids0, _, rfl, h.1.symm, ?_, ?_, ?_, fun _ => ⟨e, he, hk.1, hk.2⟩⟩ <;> split <;> rfl
         · exact absurd h (by simp)
 
 theorem refetch_fold {g : G} : ∀ (l : List Tr) (acc : Option (List Tr × List Nat)) (out : List Tr) (ids : List Nat),
